@@ -15,6 +15,8 @@ pub enum Case {
     Val { t: Ty, v: UVal, o: HOpts },
     Len { ctx: u8, l: i32, o: HOpts, payload: Vec<u8> },
     Chunk { o: HOpts, size: u32, body: Vec<u8> },
+    /// the length field of a Variant array of element type `ety` (any mask 0..63), nested per `nest`
+    VArr { nest: u8, ety: u8, dims: bool, l: i32, o: HOpts, payload: Vec<u8> },
 }
 pub struct P;
 
@@ -41,13 +43,69 @@ fn ctx_spec(ctx: u8) -> (Vec<u8>, Ty, u8, usize) {
         17 => (vec![140, 1, 0, 0, 0], Ty::Var, 0, 1),
         18 => (vec![24, 23, 1, 143, 1, 0, 0, 0], Ty::Var, 1, 1),
         19 => (vec![5, 0, 0], Ty::S(17), 1, 1),
+        21 => (vec![], Ty::S(16), 0, 1),
+        22 => (vec![1], Ty::S(21), 0, 1),
+        23 => (vec![16], Ty::Var, 0, 1),
         _ => (vec![], arr(Ty::Var), 2, 1),
     }
 }
-const NCTX: u8 = 20;
+const NCTX: u8 = 23;
 
 fn limit_of(o: &HOpts, which: u8) -> i64 { match which { 0 => o.max_str, 1 => o.max_bstr, _ => o.max_arr } }
 fn set_limit(o: &mut HOpts, which: u8, v: i64) { match which { 0 => o.max_str = v, 1 => o.max_bstr = v, _ => o.max_arr = v } }
+
+/// The limit under test gets `lim`; the other two limits get values different from it and from each
+/// other, above or below, so that a check against the wrong limit gives a different verdict.
+fn distinct_opts(r: &mut Rng, which: u8, lim: i64) -> HOpts {
+    let mut o = HOpts::default();
+    set_limit(&mut o, which, lim);
+    let mut used = vec![lim];
+    for other in 0..3u8 {
+        if other == which { continue; }
+        loop {
+            let v = if r.chance(1, 2) || lim == 0 { lim + 1 + r.below(6) as i64 } else { (lim - 1 - r.below(4) as i64).max(0) };
+            if !used.contains(&v) || (lim <= 1 && v == 0 && used.len() > 2) { used.push(v); set_limit(&mut o, other, v); break; }
+        }
+    }
+    o
+}
+/// bytes before the Variant mask byte and the decoder, per nesting — mirrors nest_spec in coq/C03/Model.v
+fn nest_prefix(nest: u8) -> Vec<u8> {
+    match nest { 1 => vec![1], 2 => vec![24], 3 => vec![23, 1], 4 => vec![0, 0, 13, 0, 0, 0, 255, 255, 255, 255, 1], _ => vec![] }
+}
+/// n real elements of a Variant array with element mask ety (random bytes for an invalid type)
+fn varr_elements(r: &mut Rng, ety: u8, n: usize) -> Vec<u8> {
+    let mut out = Vec::new();
+    for _ in 0..n {
+        match ety {
+            24 => { let _ = enc_uval(&UVal::V(g_variant(r, 0, 2)), &mut out); }
+            23 => { let _ = enc_uval(&UVal::D(g_datavalue(r, 0, 2)), &mut out); }
+            1..=22 | 25 => { let _ = enc_scalar(&g_scalar(r, ety, 0, 2), &mut out); }
+            _ => out.push(r.next() as u8),
+        }
+    }
+    out
+}
+fn varr_case(r: &mut Rng, nest: u8, ety: u8, dims: bool, l: i32, o: HOpts) -> Case {
+    let mut payload = if (1..=12).contains(&l) { varr_elements(r, ety, l as usize) } else { let k = r.below(5) as usize; r.bytes(k) };
+    if dims && l > 0 { payload.extend(1i32.to_le_bytes()); payload.extend(l.to_le_bytes()); }
+    Case::VArr { nest, ety, dims, l, o, payload }
+}
+/// a Variant array of element type k with n elements (strings at most smax long), optionally with dimensions
+fn typed_array(r: &mut Rng, k: u8, n: usize, dims: u8, smax: usize) -> Variant {
+    let values: Vec<Variant> = (0..n).map(|_| g_elem(r, k, 1, smax)).collect();
+    let dimensions = match dims { 0 => None, 1 => Some(vec![n as u32]), _ => Some(vec![1, n as u32]) };
+    Variant::Array(Box::new(Array { value_type: mask_type(k), values, dimensions }))
+}
+/// nest a Variant: top level, in a DataValue, in a Variant, in an array of Variants
+fn nest_value(r: &mut Rng, v: Variant) -> (Ty, UVal) {
+    match r.below(4) {
+        0 => (Ty::Var, UVal::V(v)),
+        1 => (Ty::DV, UVal::D(DataValue { value: Some(v), status: None, source_timestamp: None, source_picoseconds: None, server_timestamp: None, server_picoseconds: None })),
+        2 => (Ty::Var, UVal::V(Variant::Variant(Box::new(v)))),
+        _ => (Ty::Arr(Box::new(Ty::Var)), UVal::A(Some(vec![UVal::V(v)]))),
+    }
+}
 
 /// L well-formed items for the context
 fn items(r: &mut Rng, ctx: u8, n: usize) -> Vec<u8> {
@@ -120,6 +178,14 @@ impl Property for P {
                 let payload = if (0..=48).contains(&l) { items(&mut r, ctx, l as usize) } else { vec![1, 2, 3] };
                 v.push(Case::Len { ctx, l, o: tiny.clone(), payload });
             }
+            // the same boundary with the other two limits BELOW and ABOVE the one under test (pairwise different)
+            let others: [(i64, i64); 2] = [(2, 3), (9, 8)];
+            for (a, b) in others {
+                let mut o2 = HOpts::default(); set_limit(&mut o2, which, 5);
+                let rest: Vec<u8> = (0..3u8).filter(|w| *w != which).collect();
+                set_limit(&mut o2, rest[0], a); set_limit(&mut o2, rest[1], b);
+                for l in [5, 6] { v.push(Case::Len { ctx, l, o: o2.clone(), payload: items(&mut r, ctx, l as usize) }); }
+            }
             for o in [HOpts::default(), HOpts::minimal()] {
                 let lim = limit_of(&o, which) as i32;
                 for l in [lim - 1, lim, lim + 1] { v.push(Case::Len { ctx, l, o: o.clone(), payload: vec![97, 98] }); }
@@ -128,6 +194,27 @@ impl Property for P {
             for l in [0, 1, -1] {
                 let payload = if l > 0 { items(&mut r, ctx, l as usize) } else { vec![] };
                 v.push(Case::Len { ctx, l, o: zero.clone(), payload });
+            }
+        }
+        // Variant arrays of every element type (also the invalid masks 0, 26, 63), every nesting, with and
+        // without the dimensions bit; the three limits pairwise different, in both orders
+        for ety in (0u8..=26).chain([63u8]) {
+            let nest = ety % 5;
+            let dims = ety % 2 == 1;
+            for (ms, mb, ma) in [(9i64, 7i64, 3i64), (1, 2, 3), (2, 9, 3)] {
+                let o = HOpts { max_str: ms, max_bstr: mb, max_arr: ma, ..HOpts::default() };
+                for l in [3, 4] { v.push(varr_case(&mut r, nest, ety, dims, l, o.clone())); }
+            }
+            let o = HOpts { max_str: 9, max_bstr: 7, max_arr: 3, ..HOpts::default() };
+            for l in [0, -1, -2] { v.push(varr_case(&mut r, (nest + 2) % 5, ety, !dims, l, o.clone())); }
+        }
+        // ... and as values through the real encoder: a legal array must be accepted although the other
+        // limits are smaller than its length, one element too many rejected although they are larger
+        for k in 1u8..=25 {
+            let arr = typed_array(&mut r, k, 3, k % 3, 1);
+            for (ms, mb, ma) in [(1i64, 2i64, 3i64), (2, 1, 3), (8, 9, 2), (9, 8, 2)] {
+                let (t, uv) = nest_value(&mut r, arr.clone());
+                v.push(Case::Val { t, v: uv, o: HOpts { max_str: ms, max_bstr: mb, max_arr: ma, ..HOpts::default() } });
             }
         }
         // chunks: declared size around max_message_size
@@ -141,6 +228,12 @@ impl Property for P {
         }
         for size in [0u32, 12, 40, 4096] { v.push(Case::Chunk { o: HOpts { max_msg: 0, ..HOpts::default() }, size, body: r.bytes(28) }); }
         if tier == "thorough" {
+            for ety in (0u8..=26).chain([63u8]) { for nest in 0..5u8 { for dims in [false, true] {
+                for (ms, mb, ma) in [(9i64, 7i64, 3i64), (1, 2, 3)] {
+                    let o = HOpts { max_str: ms, max_bstr: mb, max_arr: ma, ..HOpts::default() };
+                    for l in [2, 3, 4, 0, -1, -2] { v.push(varr_case(&mut r, nest, ety, dims, l, o.clone())); }
+                }
+            } } }
             for ctx in 1..=NCTX { for lim in 0..=6i64 { for l in -2..=8 {
                 let which = ctx_spec(ctx).2;
                 let mut o = HOpts::default(); set_limit(&mut o, which, lim); if which != 2 { o.max_arr = 2; }
@@ -151,7 +244,33 @@ impl Property for P {
         v
     }
     fn gen(r: &mut Rng) -> Case {
-        match r.below(10) {
+        match r.below(14) {
+            10 | 11 => {
+                // the length field of a Variant array of a random element type, nesting and dimensions bit
+                let ety = if r.chance(1, 12) { *r.pick(&[0u8, 26, 40, 63]) } else { 1 + r.below(25) as u8 };
+                let nest = r.below(5) as u8;
+                let lim = r.below(8) as i64;
+                let mut o = distinct_opts(r, 2, lim);
+                if r.chance(1, 10) { o.max_depth = r.below(2) as i64; }
+                let l: i32 = match r.below(10) {
+                    0 => lim as i32 - 1, 1 | 2 => lim as i32, 3..=5 => lim as i32 + 1, 6 => -1, 7 => -2 - r.below(3) as i32,
+                    8 => *r.pick(&[i32::MIN, i32::MAX, 0x0100_0000]), _ => r.below(lim as u64 + 3) as i32,
+                };
+                let dims = r.chance(1, 3);
+                varr_case(r, nest, ety, dims, l, o)
+            }
+            12 | 13 => {
+                // a Variant array of a random element type as a value, limits around its length, nested
+                let k = 1 + r.below(25) as u8;
+                let n = 1 + r.below(5) as usize;
+                let dk = r.below(3) as u8;
+                let arr = typed_array(r, k, n, dk, 2);
+                let lim = (n as i64 + r.range(-1, 1)).max(0);
+                let mut o = distinct_opts(r, 2, lim);
+                if r.chance(1, 3) { o.max_str = o.max_str.max(2); }
+                let (t, v) = nest_value(r, arr);
+                Case::Val { t, v, o }
+            }
             0..=3 => {
                 // a value, then limits placed around lengths that occur in it
                 let depth = 3;
@@ -171,15 +290,29 @@ impl Property for P {
                         set_limit(&mut o, which, (n + r.range(-1, 1)).max(0));
                     }
                 }
+                // limits not placed by a length: small and different from the others, above or below
+                if r.chance(3, 4) {
+                    for which in 0..3u8 {
+                        if limit_of(&o, which) > 1000 || limit_of(&o, which) == 1000 {
+                            let mut v2 = r.below(9) as i64;
+                            while (0..3u8).any(|w| w != which && limit_of(&o, w) == v2) { v2 += 1; }
+                            set_limit(&mut o, which, v2);
+                        }
+                    }
+                }
                 if r.chance(1, 6) { o.max_depth = r.below(4) as i64; }
                 Case::Val { t, v, o }
             }
             4..=8 => {
                 let ctx = 1 + r.below(NCTX as u64) as u8;
                 let which = ctx_spec(ctx).2;
-                let mut o = match r.below(6) { 0 => HOpts::default(), 1 => HOpts::minimal(), _ => { let mut o = HOpts::default(); set_limit(&mut o, which, r.below(12) as i64); o } };
+                let mut o = match r.below(8) { 0 => HOpts::default(), 1 => HOpts::minimal(),
+                    2 => { let mut o = HOpts::default(); set_limit(&mut o, which, r.below(12) as i64); o }
+                    _ => { let lim = r.below(12) as i64; distinct_opts(r, which, lim) } };
                 if r.chance(1, 8) { o.max_depth = r.below(3) as i64; }
                 if which != 2 && r.chance(1, 8) { o.max_arr = r.below(2) as i64; }
+                // the contexts inside an array of one element need max_array_length >= 1 to reach the length field
+                if which != 2 && o.max_arr == 0 && r.chance(3, 4) { o.max_arr = 1 + r.below(3) as i64; if limit_of(&o, which) == o.max_arr { o.max_arr += 1; } }
                 let lim = limit_of(&o, which);
                 let l: i32 = match r.below(10) {
                     0 => lim as i32 - 1, 1 | 2 => lim as i32, 3 | 4 => (lim + 1) as i32, 5 => -1, 6 => -2 - r.below(3) as i32,
@@ -217,6 +350,26 @@ impl Property for P {
                 let class = if *l < -1 { "negative" } else if (*l as i64) > lim { "over" } else if (*l as i64) == lim { "at" } else { "under" };
                 let tag = format!("len-ctx{}-{}{}", ctx, class, if out[0] == 0 { "-accepted" } else { "-rejected" });
                 Out { tag, term: format!("(CLen {} {} {} {})", ctx, z(*l as i128), o.term(), zbytes(payload)), out }
+            }
+            Case::VArr { nest, ety, dims, l, o, payload } => {
+                let mut b = nest_prefix(*nest);
+                b.push(ety + 128 + if *dims { 64 } else { 0 });
+                b.extend(l.to_le_bytes());
+                b.extend(payload);
+                let mut out = Vec::new();
+                if *nest == 4 {
+                    let ro = o.real();
+                    match guarded(|| { let mut s = Cursor::new(&b[..]); let v = opcua::types::service_types::WriteValue::decode(&mut s, &ro); (v.is_ok(), s.position()) }) {
+                        Err(_) => out.push(-2), Ok((false, _)) => out.push(-1), Ok((true, pos)) => { out.push(0); out.push(pos as i128); }
+                    }
+                } else {
+                    let t = if *nest == 1 { Ty::DV } else { Ty::Var };
+                    decode_into(&t, o, &b, &mut out);
+                }
+                let class = if *l < -1 { "negative" } else if *l <= 0 { "empty" } else if (*l as i64) > o.max_arr { "over" } else if (*l as i64) == o.max_arr { "at" } else { "under" };
+                let tag = format!("varr-{}-nest{}{}-{}{}", if (1..=25).contains(ety) { SCALAR_NAMES[*ety as usize] } else { "invalidtype" }, nest,
+                                  if *dims { "-dims" } else { "" }, class, if out[0] == 0 { "-accepted" } else { "-rejected" });
+                Out { tag, term: format!("(CVArr {} {} {} {} {} {})", nest, ety, coq_bool(*dims), z(*l as i128), o.term(), zbytes(payload)), out }
             }
             Case::Chunk { o, size, body } => {
                 let mut b = b"MSGF".to_vec();
